@@ -98,6 +98,25 @@ def cases(tier, seed, phase):
                 msgs.insert(0, {'sender': gen_addr(rng, False), 'rcpts': bad, 'data': data.hex()})
             return {'kind': 'hopreject', 'transport': 'smtp', 'cfg': cfg, 'msgs': msgs}
         yield mk
+    # a first message the edge refuses at the END of its data (it is over the SIZE limit: 552), then an ordinary message over the same
+    # kept connection: the refused transaction must leave nothing behind at either end (the edge's session keeps its envelope object
+    # until the next MAIL / RSET; the relay client resets the transaction)
+    for j in range(60 if tier == 'quick' else 1200):
+        def mk(j=j):
+            rng = rng_for(seed, 'c06b', j)
+            def one(big):
+                wf = gen_wf(rng)
+                data = bytes(b & 0x7f for b in bytes.fromhex(wf['h']) + bytes.fromhex(wf['blank']) + bytes.fromhex(wf['body']))
+                if big:
+                    data += b'padding line to get over the limit\r\n' * 40
+                elif len(data) > 600:
+                    data = b'Subject: a small one\r\nX-Note: after the refused message\r\n\r\nbody line\r\n.leading dot\r\n'
+                return {'sender': gen_addr(rng, False), 'rcpts': list(dict.fromkeys(gen_addr(rng, False) for _ in range(rng.choice([1, 2, 3])))), 'data': data.hex()}
+            cfg = {'pipelining': rng.random() < 0.6, 'eightbit': True, 'smtputf8': False, 'size': 800, 'ehlo500': False, 'queue': '250',
+                   'tls': False, 'auth': False, 'reject': []}
+            msgs = [one(True), one(False)] + ([one(False)] if rng.random() < 0.3 else [])
+            return {'kind': 'hopbig', 'transport': 'smtp', 'cfg': cfg, 'msgs': msgs}
+        yield mk
     # two HTTP deliveries in flight at the same edge at once: the head and part of the body of one request arrive, then the whole
     # other request, then the rest of the first
     for j in range(40 if tier == 'quick' else 600):
@@ -494,6 +513,36 @@ def run_hop_reject(case, model):
     return CaseResult(None, hits, ('hopreject', repr(sorted(cfg.items(), key=str)), repr(m)), tags)
 
 
+def run_hop_big(case, model):
+    cfg = case['cfg']
+    q, taps, servers, clients, results = run_hop_smtp(case, model)
+    hits = []
+    k0, c0 = results[0]
+    if not ((k0 == 'raised' and c0 == '552') or (k0 == 'ret' and c0 and all(c == '552' for c in c0))):
+        hits.append(hit('c06.result-differs-from-edge-reply.smtp', 'the edge refused the first message at the end of its data (552) and the relay reports something else',
+                        observed={'kind': k0, 'codes': c0}, expected='552'))
+    rest = case['msgs'][1:]
+    for m, (kind, codes) in zip(rest, results[1:]):
+        if kind != 'ret' or any(c != '250' for c in codes):
+            hits.append(hit('c06.result-differs-from-edge-reply.smtp', 'a message after the refused one was not reported delivered although the edge took it',
+                            observed={'kind': kind, 'codes': codes}, expected='250'))
+            break
+    if not hits:
+        want = [(m['sender'], m['rcpts']) for m in rest]
+        got = [(g['sender'], g['rcpts']) for g in q.got]
+        if got != want:
+            hits.append(hit('c06.recipients-changed.smtp', 'after a message refused at the end of its data the next message did not arrive with exactly its own sender and recipients',
+                            observed=got[:3], expected=want[:3]))
+        else:
+            for m, g in zip(rest, q.got):
+                h, b = make_env(m).flatten()      # what the relay was given to send (line ends of the header block normalised by the envelope)
+                if not content_equal(h + b, g['data']):
+                    hits.append(hit('c06.content-changed.smtp', 'content changed after a refused message on the same connection', observed=g['data'][:80].hex()))
+                    break
+    tags = ['hop-smtp-after-552', 'pipelining' if cfg['pipelining'] else 'no-pipelining', 'connections=%d' % len(taps)]
+    return CaseResult(None, hits, ('hopbig', repr(sorted(cfg.items(), key=str)), repr(case['msgs'])[:2000]), tags)
+
+
 def run_wsgi_pair(case, model):
     """Raw requests as the real HttpRelay writes them (captured first), replayed interleaved against one WsgiEdge."""
     import gevent
@@ -860,6 +909,8 @@ def run_case(case, model):
         return run_hop(case, model)
     if case['kind'] == 'wsgipair':
         return run_wsgi_pair(case, model)
+    if case['kind'] == 'hopbig':
+        return run_hop_big(case, model)
     if case['kind'] == 'hopreject':
         return run_hop_reject(case, model)
     return run_unit(case, model)
